@@ -40,11 +40,11 @@ TNext == /\ l <= Len(Log) /\ l' = l + 1
                /\ Ev.argc = Len(Ev.words) + 1 /\ Ev.nullterm
                /\ Ev.prog0 = (IF Ev.withprog THEN Ev.prog ELSE <<112, 114, 111, 103, 114, 97, 109, 110, 97, 109, 101>>)
             \/ Ev.e = "Usage" /\ UNCHANGED cfg /\ Ev.out = "ok" /\ Ev.stray = 0
-               /\ Ev.entries = Listing(cfg, ContOf(Ev.via, Ev.argv))
+               /\ Ev.entries = Listing(EffCfg, ContOf(Ev.via, Ev.argv))
             \* help for one argument: the argument's description (header line + its text; the text carries the token
             \* unless the argument has none) or "unknown" - never both, never neither
             \/ Ev.e = "HelpArg" /\ UNCHANGED cfg
-               /\ LET a == HelpArgOf(cfg, Ev.key) IN
+               /\ LET a == HelpArgOf(EffCfg, Ev.key) IN
                   CASE a > 0 -> Ev.out = "ok" /\ Ev.header /\ ~Ev.unknown /\ Ev.toks = (IF cfg.args[a].nodesc THEN <<>> ELSE <<a>>)
                     [] a = 0 -> Ev.out = "ok" /\ ~Ev.header /\ Ev.unknown /\ Ev.toks = <<>>
                     [] OTHER -> TRUE
